@@ -241,6 +241,12 @@ def ref_decode(t: T, d, fam: Family, ns):
     if k == "tuplefix":
         out = []
         for i, a in enumerate(t.args):
+            if a.kind == "none":      # NoneType's "constructor" is the constant None: the item is not read
+                out.append(None)
+                continue
+            if a.kind == "tuplefix" and not a.args:   # likewise the empty tuple
+                out.append(())
+                continue
             try:
                 x = d[i]
             except Exception as e:
@@ -264,6 +270,10 @@ def ref_decode(t: T, d, fam: Family, ns):
         cls = ns[t.name]
         fields = all_fields(spec, fam)
         if not isinstance(d, dict):
+            if not fields:
+                # a class without fields reads nothing from its argument (the acceptance of
+                # non-mappings there is C05's known finding, not re-reported under C03)
+                return cls()
             raise RefError("non-mapping argument")
         kw = {}
         for f in fields:
@@ -281,6 +291,12 @@ def ref_decode(t: T, d, fam: Family, ns):
         spec = fam.get(t.name)
         out = []
         for i, f in enumerate(spec.fields):
+            if f.ty.kind == "none":
+                out.append(None)
+                continue
+            if f.ty.kind == "tuplefix" and not f.ty.args:
+                out.append(())
+                continue
             try:
                 x = d[i]
             except Exception as e:
